@@ -61,6 +61,22 @@ def rule_paired_borders(chk, prog):
                 restoring.append(c)
             else:
                 modifying.append(c)
+        # every value ever given to this axis' border derives from this axis' saved border (plus constants)
+        other = "vpsc::Rectangle::%sBorder" % ("y" if axis == "x" else "x")
+        other_saved = set()
+        for n in fn.nodes():
+            if n.get("k") == "VarDecl" and n.get("did") in sal:
+                i = strip_casts(sal[n["did"]])
+                if i is not None and i.get("ref") == other:
+                    other_saved.add(n["did"])
+        for c in sets:
+            from ..facts import walk as _walk
+            refs = [x for x in _walk(call_args(c)[0]) if x.get("k") == "DeclRefExpr" and x.get("rk") in ("Var", "ParmVar")]
+            wrong = [x for x in refs if x.get("did") in other_saved or x.get("ref") == other]
+            own = [x for x in refs if x.get("did") in saved]
+            if wrong or not own:
+                r.bad("%s-border value" % axis, fn.loc(c), "%s is given `%s`, which is not derived from the %s border saved at entry" % (
+                    setter.split("::")[-1], src(call_args(c)[0]), axis))
         modifying += direct
         if not modifying:
             raise AnalysisBroken("removeoverlaps no longer modifies the %s border: rule has no instance" % axis)
@@ -292,6 +308,19 @@ def rule_gap_shape(chk, prog):
                             "right" if pl == "right" else "left", "left" if pl == "right" else "right")
                     elif pl is None and pr is None:
                         why = "cannot establish which side the neighbour node comes from"
+            if not why:
+                from ..rules.guards import path_condition, atoms, show
+                pc = path_condition(fn, n, inline=False)
+                extra = []
+                for a_ in atoms(pc):
+                    t = a_.replace(" ", "")
+                    if t in ("(e.type==vpsc::Open)", "useNeighbourLists", "(l!=nullptr)", "(r!=nullptr)", "(l!=__null)", "(r!=__null)"):
+                        continue
+                    if ".end()" in t or t.startswith("(i<"):
+                        continue
+                    extra.append(a_)
+                if extra:
+                    why = "the constraint is only generated when %s: scan-line neighbours can be left without a separation constraint" % extra
             if why:
                 r.bad(inst, fn.loc(n), why)
             else:
@@ -317,3 +346,7 @@ def run(chk):
     rule_writers_reach(chk, prog, cg)
     rule_gap_shape(chk, prog)
     rule_order(chk, prog)
+    from ..rules import mirrors
+    r = chk.rule("MIRROR", "the X and Y twins of vpsc::Rectangle (getters, overlapX/Y, moveCentreX/Y, set_width/height, borders, "
+                 "min/max accessors) and of the scan-line Node stay exact mirror images (tables/mirrors.json)", floor=10)
+    mirrors.check(r, prog, ["vpsc::Rectangle::", "vpsc::Node::"], sample=chk.sample)
